@@ -1779,3 +1779,137 @@ Lemma run_digest_edit_witness :
   (mkBG [[mkSeg (4294967296 - 48) 16 0]] [(4, Some (4, seqZ 16 16)); (18, Some (18, seqZ 16 16)); (11, Some (11, seqZ 16 16))],
    [RNone; RUnit (Ok tt); RBool (Ok true)]).
 Proof. vm_compute. reflexivity. Qed.
+
+(* ================================================================== *)
+(** * images on which more than one layout probe answers (round 6, seeded change C19-m11)
+
+    A full coreboot image carries a flash descriptor AND a flash map; the COREBOOT area need
+    not end where the BIOS region ends (a BOOTBLOCK area above the CBFS).  The property maps
+    the END OF THE BIOS REGION of the descriptor to 4 GiB whenever there is a descriptor; the
+    flash map decides only for an image without descriptor, the image as a whole only when
+    there is neither. *)
+
+Definition region_ends (r : Z * Z) (re : Z) : Prop :=
+  0 <= fst r /\ 0 <= snd r /\ fst r + snd r = re /\ re < W32.
+
+(** the mapped region of the property text, from the answers of all three probes *)
+Definition mapped_region (p : probes) (n re : Z) : Prop :=
+  match pr_ifd p with
+  | Some r => region_ends r re                    (* a descriptor: its BIOS region, whatever else *)
+  | None =>
+      match pr_fmap p with
+      | Some r => region_ends r re                (* no descriptor: the COREBOOT area *)
+      | None => pr_bios p = true /\ re = n /\ 0 <= n < W32   (* a bare BIOS region: the image *)
+      end
+  end.
+
+Lemma probe_layout_anchored p n re : mapped_region p n re -> anchored (probe_layout p) n re.
+Proof.
+  unfold mapped_region, probe_layout, region_ends.
+  destruct (pr_ifd p) as [[o s]|]; [cbn; tauto|].
+  destruct (pr_fmap p) as [[o s]|]; [cbn; tauto|].
+  intros [Hb H]. rewrite Hb. cbn. tauto.
+Qed.
+
+Theorem calc_image_offset_mapped p n re addr :
+  mapped_region p n re -> BASE - re <= addr < BASE ->
+  calc_image_offset p n addr = Ok (spec_offset re addr).
+Proof. intros Hm Hr. apply calc_offset_anchored; [apply probe_layout_anchored|]; assumption. Qed.
+
+(** with a descriptor nothing else is consulted (unconditional) *)
+Theorem calc_image_offset_descriptor_only r fm fm' b b' n addr :
+  calc_image_offset (mkPR (Some r) fm b) n addr = calc_image_offset (mkPR (Some r) fm' b') n addr.
+Proof. destruct r. reflexivity. Qed.
+
+Theorem calc_image_offset_descriptor_first off size fm b n addr :
+  0 <= off -> 0 <= size -> off + size < W32 -> BASE - (off + size) <= addr < BASE ->
+  calc_image_offset (mkPR (Some (off, size)) fm b) n addr = Ok (spec_offset (off + size) addr).
+Proof.
+  intros Ho Hs Hw Hr. apply calc_image_offset_mapped; [|assumption].
+  cbn. unfold region_ends. cbn. lia.
+Qed.
+
+(** without a descriptor the flash map decides, whether or not the image also parses as a BIOS region *)
+Theorem calc_image_offset_fmap_second off size b n addr :
+  0 <= off -> 0 <= size -> off + size < W32 -> BASE - (off + size) <= addr < BASE ->
+  calc_image_offset (mkPR None (Some (off, size)) b) n addr = Ok (spec_offset (off + size) addr).
+Proof.
+  intros Ho Hs Hw Hr. apply calc_image_offset_mapped; [|assumption].
+  cbn. unfold region_ends. cbn. lia.
+Qed.
+
+(** closed instance (the shape of the demo image of C19-m11): 1 MiB, BIOS region [0x1000, 1 MiB),
+    COREBOOT area [0x10000, 0xE0000) below a 128 KiB BOOTBLOCK area: the last 16 bytes below
+    4 GiB are the last 16 bytes of the image, not of the COREBOOT area *)
+Lemma calc_image_offset_two_probes_witness :
+  calc_image_offset (mkPR (Some (4096, 1044480)) (Some (65536, 851968)) true) 1048576 4294967280 = Ok 1048560 /\
+  calc_image_offset (mkPR None (Some (65536, 851968)) true) 1048576 4294967280 = Ok 917488.
+Proof. split; vm_compute; reflexivity. Qed.
+
+Section ProbesDigest.
+  Variable H : Z -> list Z -> list Z.
+
+  Theorem ibbs_digest_probes ver alg p region_end img segs :
+    mapped_region p (zlen img) region_end -> region_end <= zlen img ->
+    alg_supported ver alg = true ->
+    Forall (fun s => included s = true -> seg_in_region region_end img s) segs ->
+    ibbs_digest H ver alg (probe_layout p) img segs =
+    Ok (H alg (concat (map (fun s => slice img (spec_offset region_end (sg_base s)) (sg_size s))
+                           (filter included segs)))).
+  Proof. intros Hm. apply ibbs_digest_anchored_total. apply probe_layout_anchored. exact Hm. Qed.
+End ProbesDigest.
+
+(** descriptor whose BIOS region ends at the end of the image, ANY flash map beside it: the
+    validator accepts what GetIBBsDigest hashed *)
+Theorem ibbs_match_descriptor_with_fmap off size fm b img segs p :
+  0 <= off -> 0 <= size -> off + size = zlen img -> zlen img < W32 ->
+  Forall (fun s => included s = true ->
+                   BASE - zlen img <= sg_base s < BASE /\ seg_inside (spec_offset (zlen img)) img s) segs ->
+  digest_preimage (probe_layout (mkPR (Some (off, size)) fm b)) img segs = Ok p ->
+  ibbs_match (probe_layout (mkPR (Some (off, size)) fm b)) img segs = Ok true.
+Proof.
+  intros Ho Hs He Hw. apply ibbs_match_accepts. cbn. lia.
+Qed.
+
+(** stitching: only the targeted entries' regions change, whatever the flash map beside the
+    descriptor says *)
+Theorem stitch_frame_descriptor_with_fmap off size fm b img fit acm bpm km i :
+  0 <= off -> 0 <= size -> off + size = zlen img -> zlen img < W32 ->
+  entries_in_window (zlen img) fit -> 0 <= i ->
+  (forall e, In e fit -> ~ in_entry_region (zlen img) e acm bpm km i) ->
+  zn (fst (stitch (probe_layout (mkPR (Some (off, size)) fm b)) img (Some fit) acm bpm km)) i = zn img i.
+Proof.
+  intros Ho Hs He Hw. apply stitch_frame_region. cbn. lia.
+Qed.
+
+(** the generation chain on an object with any history, for an image with a descriptor (BIOS
+    region ending at the end of the image) and any flash map beside it *)
+Theorem run_pipeline_descriptor_with_fmap ver st flags fit off size fm b img :
+  0 < se_count st ->
+  0 <= off -> 0 <= size -> off + size = zlen img -> zlen img < W32 ->
+  Forall (fun e => is_startup e = true -> fit_entry_wf e) fit ->
+  Forall (fun s => included s = true -> seg_in_region (zlen img) img s)
+         (map (fun e => mkSeg (fe_addr e) (16 * fe_size e) flags) (filter is_startup fit)) ->
+  Forall (fun ad => alg_supported ver (fst ad) = true) (bg_digs st) ->
+  bg_digs st <> [] ->
+  let l := probe_layout (mkPR (Some (off, size)) fm b) in
+  let segs := map (fun e => mkSeg (fe_addr e) (16 * fe_size e) flags) (filter is_startup fit) in
+  let p := concat (map (fun s => slice img (spec_offset (zlen img) (sg_base s)) (sg_size s))
+                       (filter included segs)) in
+  run ver st [OCreateSegs 0 flags (Some fit); OCreateDigest l img; OMatch img] =
+  (mkBG (set_nth 0 segs (bg_segs st)) (map (fun ad => (fst ad, Some (fst ad, p))) (bg_digs st)),
+   [RUnit (Ok tt); RUnit (Ok tt); RBool (Ok true)]).
+Proof.
+  intros Hc Ho Hs He Hw Hwf Hin Halgs Hne.
+  apply run_pipeline_any_history; try assumption. cbn. lia.
+Qed.
+
+(** closed instance: 64-byte image, BIOS region [16,64), COREBOOT area [24,48) (16 bytes of
+    "BOOTBLOCK area" above it): the segment (4GiB-48, 16) is bytes [16,32) and the validator
+    accepts; an image with the same flash map and no descriptor maps the end of the COREBOOT
+    area to 4 GiB (bytes [0,16)) *)
+Lemma digest_two_probes_witness :
+  digest_preimage (probe_layout (mkPR (Some (16, 48)) (Some (24, 24)) true)) (seqZ 0 64) [mkSeg (4294967296 - 48) 16 0] = Ok (seqZ 16 16) /\
+  ibbs_match (probe_layout (mkPR (Some (16, 48)) (Some (24, 24)) true)) (seqZ 0 64) [mkSeg (4294967296 - 48) 16 0] = Ok true /\
+  digest_preimage (probe_layout (mkPR None (Some (24, 24)) true)) (seqZ 0 64) [mkSeg (4294967296 - 48) 16 0] = Ok (seqZ 0 16).
+Proof. repeat split; vm_compute; reflexivity. Qed.
